@@ -3,6 +3,8 @@ package props
 import (
 	"encoding/json"
 	"fmt"
+	"os"
+	"sort"
 	"strings"
 	"time"
 
@@ -203,17 +205,34 @@ func c17QRun(w *kernel.Worker, j *c17QJob, rep *kernel.Report) (*Fail, error) {
 		}
 	}
 	// resources: tables empty, no goroutine of the query packages left (compared by stack signature with the baseline)
+	active, leak, err := queryResourcesLeft(w, base)
+	if err != nil {
+		return die("(resources)", err)
+	}
+	if active != 0 {
+		fs.Add("C17/running-table-not-empty", fmt.Sprintf("layout %s, %d %s queries answered; 5 s later GetActiveQueryCount() = %d", j.Layout, len(j.Texts), j.Lang, active))
+	}
+	if len(leak) > 0 {
+		fs.Add("C17/goroutine-left/"+leakClass(leak[0]), fmt.Sprintf("layout %s, queries %v: 5 s after the last answer these goroutines of the query packages still exist: %v", j.Layout, j.Texts, leak))
+	}
+	_ = delIndex(w, 0, idx)
+	return fs.Result(), nil
+}
+
+// queryResourcesLeft polls (up to 5 s) until the running table is empty and no goroutine of the query packages exists
+// that the baseline did not have; returns what is still there at the end.
+func queryResourcesLeft(w *kernel.Worker, base map[string]map[string]int) (int64, []string, error) {
 	var leak []string
 	active := int64(-1)
 	for attempt := 0; attempt < 100; attempt++ {
 		var st map[string]interface{}
 		if err := w.Call("stats", nil, &st); err != nil {
-			return die("(stats)", err)
+			return 0, nil, err
 		}
 		active, _ = ObsInt(st["activeQueries"])
 		var now map[string]map[string]int
 		if err := w.Call("goroutines", nil, &now); err != nil {
-			return die("(goroutines)", err)
+			return 0, nil, err
 		}
 		leak = leak[:0]
 		for sig, n := range now["sigs"] {
@@ -239,14 +258,8 @@ func c17QRun(w *kernel.Worker, j *c17QJob, rep *kernel.Report) (*Fail, error) {
 		}
 		_ = w.Call("sleep", map[string]interface{}{"ms": 50}, nil)
 	}
-	if active != 0 {
-		fs.Add("C17/running-table-not-empty", fmt.Sprintf("layout %s, %d %s queries answered; 5 s later GetActiveQueryCount() = %d", j.Layout, len(j.Texts), j.Lang, active))
-	}
-	if len(leak) > 0 {
-		fs.Add("C17/goroutine-left/"+leakClass(leak[0]), fmt.Sprintf("layout %s, queries %v: 5 s after the last answer these goroutines of the query packages still exist: %v", j.Layout, j.Texts, leak))
-	}
-	_ = delIndex(w, 0, idx)
-	return fs.Result(), nil
+	sort.Strings(leak)
+	return active, leak, nil
 }
 
 func leakClass(sig string) string {
@@ -269,9 +282,11 @@ func C17() int {
 		"JSON) through the real parsers, twice: must return a plan or an error, must not kill the process or hang, and the two plans must be deeply equal. (b) 216 Splunk-QL queries generated from 42 command " +
 		"templates × fields {dense, sparse, absent, mixed-type, numeric-string} plus SQL queries, over a 4-event dataset in open and rotated layouts, one call each: the worker stays alive and answers " +
 		"(results or error) within 120 s; afterwards the running-query count is 0 and no goroutine whose stack lies in the query packages remains (compared by stack signature with a baseline taken before). " +
-		"non-trivial = (b) query answered with results; (a) counts parsed_ok_<lang>"
+		"(c) lifecycle under the controlled scheduler: the real query held at its k-th lock operation, for every k, while cancel / a 1 s timeout / a competing query under a running limit of 1 act; each query ends " +
+		"in exactly one way, the other query is answered correctly, the limit is never exceeded, a query cancelled while waiting never runs, tables and goroutines are clean afterwards. " +
+		"non-trivial = (b) query answered with results; (c) schedule whose hold point was reached; (a) counts parsed_ok_<lang>"
 	rep.Assume = []string{"a parser panic is recovered by the HTTP layer's Recovery middleware (the parser runs in the handler goroutine) and therefore counts as an error answer, not as a crash",
-		"the cancel/timeout/delete lifecycle under adversarial interleavings is not covered by this check (see MANIFEST note)"}
+		"(c) preemption bound 1 at lock-operation granularity; the environment's actions run atomically while the query is held"}
 	budget := kernel.NewBudget(map[string]time.Duration{"quick": 170 * time.Second, "thorough": 40 * time.Minute}[rep.Tier])
 	pool := logPool()
 	pool.RecycleEvery = 50
@@ -288,7 +303,9 @@ func C17() int {
 		Key:        func(j *c17ParseJob) string { return j.Lang + "|" + strings.Join(j.Prefix, " ") },
 		Nontrivial: func(j *c17ParseJob) bool { return false },
 	}
-	dp.Drive()
+	if only := os.Getenv("VERIF_C17_ONLY"); only == "" || only == "a" {
+		dp.Drive()
+	}
 	qpool := logPool()
 	qpool.RecycleEvery = 1
 	dq := &Driver[c17QJob]{Rep: rep, Pool: qpool, Budget: budget,
@@ -309,7 +326,12 @@ func C17() int {
 		Key:        func(j *c17QJob) string { return j.Layout + "|" + j.Lang + "|" + strings.Join(j.Texts, ";") },
 		Nontrivial: func(j *c17QJob) bool { return false },
 	}
-	dq.Drive()
+	if only := os.Getenv("VERIF_C17_ONLY"); only == "" || only == "b" {
+		dq.Drive()
+	}
+	if os.Getenv("VERIF_C17_ONLY") == "" || os.Getenv("VERIF_C17_ONLY") == "c" {
+		c17Lifecycle(rep, budget)
+	}
 	return rep.Finish()
 }
 
@@ -320,9 +342,13 @@ func init() {
 func init() {
 	Replayers["C17"] = func(doc json.RawMessage) int {
 		var probe struct {
-			Texts []string `json:"texts"`
+			Texts    []string `json:"texts"`
+			Scenario string   `json:"scenario"`
 		}
 		_ = json.Unmarshal(doc, &probe)
+		if probe.Scenario != "" {
+			return MakeReplayer[c17cJob]("C17", "exploration", logPool, c17cRun)(doc)
+		}
 		if len(probe.Texts) > 0 {
 			return MakeReplayer[c17QJob]("C17", "exploration", logPool, c17QRun)(doc)
 		}
